@@ -4,6 +4,8 @@ import (
 	"fmt"
 
 	ct "github.com/circlefin/noble-cctp/x/cctp/types"
+
+	"verif/harness/chain"
 )
 
 // RunHistory drives n transactions of hostile history on e with all online monitors.
@@ -50,16 +52,32 @@ func init() {
 // focused checks so that state kept outside the store (caches, in-place mutated buffers) is exercised under
 // every property's monitors.
 func ProbeHistory(rc *RunCtx, n int, double bool) {
-	e, err := StdEngine(rc, double, false, nil)
+	e, err := StdEngine(rc, double, false, func(gs *ct.GenesisState, cfg *chain.Config) {
+		// domains 3 and 5 start without a token messenger, so that "register in a rolled-back transaction, then
+		// deposit there" is exercised as well as "rotate in a rolled-back transaction"
+		var tm []ct.RemoteTokenMessenger
+		for _, m := range gs.TokenMessengerList {
+			if m.DomainId != 3 && m.DomainId != 5 {
+				tm = append(tm, m)
+			}
+		}
+		gs.TokenMessengerList = tm
+	})
 	if err != nil {
 		rc.Cov.Inconclusive("probe history: " + err.Error())
 		return
 	}
 	g := NewGen(e)
+	g.CycleProbes = true
 	for i := 0; i < n; i++ {
 		var tx Tx
 		if i%3 == 0 && len(g.queue) == 0 {
+			if g.probeN%14 == 3 && !e.M.HasPending && (g.probeN/14)%2 == 1 {
+				// a pending owner exists before the ownership probe of every other cycle (accept rolled back)
+				e.Exec(Tx{Msgs: msgs1(&ct.MsgUpdateOwner{From: e.M.Owner, NewOwner: Acct((AcctIndex(e.M.Owner) + 1 + rc.Rand.Intn(NAccounts-1)) % NAccounts)}), Note: "probe history: name a pending owner"})
+			}
 			tx = g.RollbackProbe()
+			rc.Cov.Cell("rollback_probe_kinds", fmt.Sprintf("kind=%d/same-block=%v", (g.probeN-1)%14, len(tx.Pre) > 0))
 		} else {
 			tx = g.Next()
 		}
